@@ -42,6 +42,7 @@ class Scenario:
     witness_cap: int = 24
     query_timeout_ms: int = 10000
     time_budget_s: float = 240.0
+    nlsat: bool = True  # try the non-incremental nlsat tactic first (pure real arithmetic); switch off for integer-heavy scenarios
     round_mode: str = "exact"  # "uf": roundings are uninterpreted functions with bracketing axioms (over-approximation)
 
 
@@ -239,6 +240,15 @@ class Ctx:
             if z3.is_true(z3.simplify(ea == eb)):
                 return True
         if not symx.is_sym(a) and not symx.is_sym(b):
+            if isinstance(a, fractions.Fraction) or isinstance(b, fractions.Fraction):
+                # exact oracle evaluation in concrete mode
+                fa, fb = fractions.Fraction(a), fractions.Fraction(b)
+                bound = fractions.Fraction(0)
+                if abs_ is not None:
+                    bound += fractions.Fraction(abs_)
+                if rel is not None:
+                    bound += fractions.Fraction(rel) * max(abs(fa), abs(fb))
+                return abs(fa - fb) <= bound
             try:
                 if a == b:
                     return True
@@ -286,6 +296,7 @@ def run_symbolic(sc: Scenario, tier: str):
 
     shadow.install(sc.shadows)
     symx.ROUND_MODE = sc.round_mode
+    symx.NLSAT = "1" if sc.nlsat else "0"
     ex = symx.Explorer(max_paths=sc.max_paths, query_timeout_ms=sc.query_timeout_ms)
     ex.deadline = time.time() + sc.time_budget_s * (1 if tier == "quick" else 4)
     symx.CUR = ex
